@@ -119,8 +119,8 @@ class Fn:
         return self.locals[l][2]
 
     ROLE_TYPES = {
-        "dst_view": r"^&mut impl (image_view::)?ImageViewMut<",
-        "src_view": r"^&impl (image_view::)?ImageView<",
+        "dst_view": r"^&mut impl ([a-z_0-9]+::)*ImageViewMut<",
+        "src_view": r"^&impl ([a-z_0-9]+::)*ImageView<",
         "cropped_src_view": r"CroppedSrcImageView<",
     }
 
@@ -260,6 +260,8 @@ TRAIT_METHOD_PARAMS = {
 }
 
 
+_PUBLIC_FN_TAILS = {}
+
 # public functions whose parameter order is part of the API
 PUBLIC_FN_PARAMS = {
     "crop_box::CropBox::fit_src_into_dst_size":
@@ -268,8 +270,10 @@ PUBLIC_FN_PARAMS = {
 
 
 def _canonical_trait_params(data):
+    global _PUBLIC_FN_TAILS
+    _PUBLIC_FN_TAILS = {_item_tail(k): v for k, v in PUBLIC_FN_PARAMS.items()}
     for k, d in data["fns"].items():
-        spec = PUBLIC_FN_PARAMS.get(d.get("name"))
+        spec = PUBLIC_FN_PARAMS.get(d.get("name")) or _PUBLIC_FN_TAILS.get(_item_tail(d.get("name") or ""))
         if spec and d.get("pub"):
             b = d.get("body") or {}
             names, tys = spec
@@ -293,6 +297,40 @@ def _canonical_trait_params(data):
                 loc[1] = r
 
 
+FILE_ANCHORS = {
+    "src/crop_box.rs": "crop_box::CropBox::fit_src_into_dst_size",
+    "src/image_view.rs": "image_view::ImageView::split_by_height",
+    "src/threading.rs": "threading::split_h_two_images_for_threading",
+    "src/convolution/optimisations.rs": "convolution::optimisations::Normalizer16::new",
+    "src/alpha/common.rs": "alpha::common::div_and_clip",
+}
+
+
+def _item_tail(name):
+    """def path without its leading module segments: `a::b::Type::<T>::method` -> `Type::<T>::method`,
+    `a::b::func` -> `func`"""
+    segs, depth, cur = [], 0, ""
+    i = 0
+    while i < len(name):
+        ch = name[i]
+        if ch in "<([":
+            depth += 1
+        elif ch in ">)]":
+            depth -= 1
+        if depth == 0 and name.startswith("::", i):
+            segs.append(cur)
+            cur = ""
+            i += 2
+            continue
+        cur += ch
+        i += 1
+    segs.append(cur)
+    k = 0
+    while k < len(segs) - 1 and re.match(r"^[a-z_][a-z0-9_]*$", segs[k]):
+        k += 1
+    return "::".join(segs[k:])
+
+
 class Program:
     def __init__(self, data):
         self.data = data
@@ -308,14 +346,46 @@ class Program:
         for f in self.fns.values():
             self._by_name[f.name].append(f)
         self._callers = None
+        self._tails = None
+        self._file_now = {}
 
     # -- lookup
+    def file_now(self, legacy):
+        """the file that plays the part of `legacy` today: the file itself while it exists, else
+        the file its anchor item moved to (module layout is the author's choice)"""
+        if legacy not in self._file_now:
+            now = legacy
+            if legacy in FILE_ANCHORS and not any(f.file == legacy for f in self.fns.values()):
+                try:
+                    now = self.fn_by_name(FILE_ANCHORS[legacy]).file
+                except CheckError:
+                    pass
+            self._file_now[legacy] = now
+        return self._file_now[legacy]
+
+    def adt_ids(self, last):
+        """ids of the crate's ADTs whose last path segment is `last`"""
+        return [k for k in self.adts if k.rsplit("::", 1)[-1] == last]
+
     def fn_by_name(self, name):
         """exact def_path_str match; unique or CheckError"""
         v = self._by_name.get(name, [])
+        if not v:
+            v = self._by_tail(name)
         if len(v) != 1:
             raise CheckError("anchor function %r: %d matches" % (name, len(v)))
         return v[0]
+
+    def _by_tail(self, name):
+        """the item moved to another module: the module path is the author's choice, the
+        type and function names are what the rules mean. Unique tail match or nothing."""
+        tail = _item_tail(name)
+        if self._tails is None:
+            self._tails = defaultdict(list)
+            for f in self.fns.values():
+                if f.d.get("kind") != "closure":
+                    self._tails[_item_tail(f.name)].append(f)
+        return self._tails.get(tail, [])
 
     def fns_matching(self, regex):
         r = re.compile(regex)
@@ -334,6 +404,9 @@ class Program:
     # -- traits
     def trait_id(self, suffix):
         v = [k for k in self.traits if k.endswith(suffix)]
+        if not v:
+            last = suffix.rsplit("::", 1)[-1]
+            v = [k for k in self.traits if k.rsplit("::", 1)[-1] == last]
         if len(v) != 1:
             raise CheckError("anchor trait %r: %d matches" % (suffix, len(v)))
         return v[0]
